@@ -23,6 +23,7 @@ def main(ctx, args):
         "NoClash(pair) = the argument code mentions neither the old nor the new binder name, the template does not already use the new name, and the use site (locals, globals) binds neither",
         "a pair = the same program with one binder of the macro body (let / tuple pattern / lambda parameter) consistently renamed inside the macro definition only",
         "pairs outside NoClash are expected to differ (findings F6, S1): they are counted and the difference is reported as the known class, not as a violation",
+        "macro pipe `x ||> f`: programs are rendered from nameless skeletons (stagegen.pipe_variants); a pair = (rendering with distinct fresh binder names and explicit macro lambdas, rendering with names from {a, b, __lambda_arg_0, __lambda_arg_1} and/or the `_` sugar) whose names resolve lexically to the same binders; both must also equal the skeleton's manual expansion; classes S5 (generated binder __lambda_arg_<i> captures a user splice) and S6 (substitute_macro_arg enters a non-piped macro lambda that binds the same name) are known findings",
     ]
     known = load_known("C10")
     if not extract(ctx):
@@ -40,7 +41,9 @@ def main(ctx, args):
     if args.replay:
         r = json.load(open(args.replay))
         pairs = [dict(orig_src=r["orig_src"], ren_src=r["src"], orig_sx=r.get("orig_sx"), ren_sx=r.get("sx"), noclash=r.get("noclash", True),
-                      why=r.get("why", []), template=r.get("template", "?"), dup_o=True, dup_r=True)]
+                      why=r.get("why", []), template=r.get("template", "?"), dup_o=True, dup_r=True, binder=r.get("binder"), new=r.get("new"))]
+        if r.get("manual_src"):
+            pairs[0].update(pipe=True, man_src=r["manual_src"], dup_o=False, dup_r=False)
         scope = 1
     else:
         sel, scope = select(ctx)
@@ -49,6 +52,13 @@ def main(ctx, args):
             mo, mr = stagegen.manual(c["orig"]), stagegen.manual(c["ren"])
             pairs.append(dict(c, orig_src=c["orig"].src(), ren_src=c["ren"].src(), orig_sx=c["orig"].sx(), ren_sx=c["ren"].sx(),
                               dup_o=stagegen.dup_binders(mo), dup_r=stagegen.dup_binders(mr)))
+        # the macro pipe: (canonical rendering, variant) pairs of every skeleton
+        for v in stagegen.pipe_variants():
+            names = ", ".join(f"{k}:{n}" for k, n in sorted(v["naming"].items())) + ("; `_` for " + ",".join(map(str, v["sugar"])) if v["sugar"] else "")
+            pairs.append(dict(orig_src=v["canon"].src(), ren_src=v["sp"].src(), orig_sx=v["canon"].sx(), ren_sx=v["sp"].sx(), noclash=v["cls"] == "ok",
+                              why=[] if v["cls"] == "ok" else ["macro pipe: " + v["cls"]], template="macro-pipe:" + v["shape"], binder="p<i>", new=names,
+                              dup_o=False, dup_r=False, pipe=True, man_src=v["man"].src()))
+        scope += sum(1 for p in pairs if p.get("pipe"))
     # distinct programs only (many pairs share the original)
     srcs, sxs = {}, {}
     for p in pairs:
@@ -56,8 +66,15 @@ def main(ctx, args):
             srcs.setdefault(p[k + "_src"], "p%d" % len(srcs))
             if p.get(k + "_sx"):
                 sxs[srcs[p[k + "_src"]]] = p[k + "_sx"]
-    outs = sc.run_outputs([(i, s, TIMES, []) for s, i in srcs.items()], backends="vm,wasm")
+    mans = {}
+    for p in pairs:
+        if p.get("man_src"):
+            mans.setdefault(p["man_src"], "m%d" % len(mans))
+    outs = sc.run_outputs([(i, s, TIMES, []) for s, i in srcs.items()] + [(i, s, TIMES, []) for s, i in mans.items()], backends="vm,wasm")
     model = sc.run_model([(i, sx, TIMES, []) for i, sx in sxs.items()])
+    # macro pipe: the tree after the front end (convert_placeholder, convert_macro_pipe) of the real compiler vs the model's
+    pipe_srcs = sorted({p["ren_src"] for p in pairs if p.get("pipe")} | {p["orig_src"] for p in pairs if p.get("pipe")})
+    ftrees = sc.run_trees([(srcs[s], s, "front" if "`" in s else "plain") for s in pipe_srcs]) if pipe_srcs else {}
     viol, modelbad, samples, nontriv = [], [], [], set()
     clash_diff, clash_same, by_why = 0, 0, collections.Counter()
     for p in pairs:
@@ -73,6 +90,21 @@ def main(ctx, args):
         for i, dup in ((io, p["dup_o"]), (ir, p["dup_r"])):
             if i in model and not dup and outs[i][0].startswith("ok") and model[i][2] != sc.norm_out(outs[i][0]):
                 modelbad.append((p, i, outs[i][0], model[i][2]))
+        if p.get("pipe"):
+            stats["macro_pipe_pairs"] += 1
+            for i, s_ in ((io, p["orig_src"]), (ir, p["ren_src"])):
+                tf = ftrees.get(i)
+                if tf and tf[0] == "ok" and i in model:
+                    want = ("(bracket " + model[i][0] + ")") if "`" in s_ else model[i][0]
+                    stats["macro_pipe_front_trees_compared"] += 1
+                    if sc.norm_none(tf[1]) != want:
+                        modelbad.append((p, i, "front-end tree " + sc.norm_none(tf[1])[-200:], want[-200:]))
+            if p["noclash"]:
+                # … and both renderings must be the manual expansion
+                im = mans[p["man_src"]]
+                for bi, be in enumerate(("vm", "wasm")):
+                    if sc.norm_out(outs[ir][bi]) != sc.norm_out(outs[im][bi]) and be not in diff:
+                        diff.append(be + ":differs-from-manual-expansion")
         if p["noclash"]:
             stats["noclash_pairs"] += 1
             if diff:
@@ -111,9 +143,14 @@ def main(ctx, args):
         rep = {"orig_src": p["orig_src"], "src": p["ren_src"], "orig_sx": p.get("orig_sx"), "sx": p.get("ren_sx"), "noclash": True, "differs_on": diff,
                "template": p.get("template"), "arg": p.get("arg"), "after": p.get("after"), "bound": p.get("bound"), "globals": p.get("globals"),
                "binder": p.get("binder"), "new": p.get("new"), "orig_outcome": [x[:300] for x in a], "renamed_outcome": [x[:300] for x in b],
-               "failing_pairs": len(viol), "times": TIMES}
-        ctx.violation(f"renaming the binder `{p.get('binder')}` of the macro body to `{p.get('new')}` changes the program although nothing clashes "
-                      f"({len(viol)} NoClash pairs differ); smallest renamed program:\n{p['ren_src']}\n--- original\n{p['orig_src']}", rep)
+               "manual_src": p.get("man_src"), "failing_pairs": len(viol), "times": TIMES}
+        if p.get("pipe"):
+            ctx.violation(f"macro pipe ({p.get('template')}): writing the binders as [{p.get('new')}] instead of distinct fresh names changes the program although "
+                          f"every splice still resolves to the same binder ({len(viol)} NoClash pairs differ, on {', '.join(diff)}); outputs {b[0][:60]} vs {a[0][:60]}; "
+                          f"smallest such program:\n{p['ren_src']}\n--- the same with distinct binder names\n{p['orig_src']}\n--- manual expansion\n{p.get('man_src')}", rep)
+        else:
+            ctx.violation(f"renaming the binder `{p.get('binder')}` of the macro body to `{p.get('new')}` changes the program although nothing clashes "
+                          f"({len(viol)} NoClash pairs differ); smallest renamed program:\n{p['ren_src']}\n--- original\n{p['orig_src']}", rep)
     elif modelbad:
         p, i, impl, mdl = modelbad[0]
         rep = {"orig_src": p["orig_src"], "src": p["ren_src"], "orig_sx": p.get("orig_sx"), "sx": p.get("ren_sx"), "noclash": p["noclash"],
@@ -129,7 +166,12 @@ def main(ctx, args):
         "rule": "small-scope enumeration: 11 macro templates binding a local around / next to / from a splice (let, let-then-let, tuple pattern, lambda parameter, mem, assignment, if arm, inner block, rebinding) "
                 "x 7 argument codes over the pool {y,z,w} x use sites binding every subset of the pool as locals or a global x 4 continuations mentioning pool names "
                 "x every renaming of the binder within the pool or to a fresh name; each pair (original, renamed) runs %d samples on VM and WASM and on the model. "
-                "NoClash pairs must agree; non-trivial = NoClash pair accepted by the compiler; distinct = distinct pair of sources" % TIMES,
+                "NoClash pairs must agree; non-trivial = NoClash pair accepted by the compiler; distinct = distinct pair of sources. "
+                "Macro pipe: 21 nameless skeletons (single, nested on the body side at equal / different argument positions, inner body using the outer binder, "
+                "nested on the argument side, chained, triple, siblings, stateful argument, let in the body, non-piped macro lambdas inside / around pipes) "
+                "x every lexically valid naming of the binders over {a, b, __lambda_arg_0, __lambda_arg_1} x every subset of pipes written with the `_` sugar; "
+                "each rendering is paired with the canonical one (distinct names, explicit lambdas), compared with the manual expansion, and its front-end tree "
+                "with the model's convert_placeholder/convert_macro_pipe" % TIMES,
         "exhaustive": not args.replay,
         "exhaustive_scope": f"{scope} pairs in scope, {len(pairs)} run",
         "samples": samples or [{"note": "replay mode"}],
@@ -140,6 +182,8 @@ def main(ctx, args):
         "clash_pairs_that_differ(known class)": clash_diff,
         "clash_pairs_by_reason": dict(by_why),
         "model_mispredictions": len(modelbad),
+        "macro_pipe_pairs": stats["macro_pipe_pairs"],
+        "macro_pipe_front_trees_compared": stats["macro_pipe_front_trees_compared"],
         "outcome_classes": {k: v for k, v in stats.items() if k.startswith(("vm_", "wasm_"))},
     })
     ctx.finish("proof")
